@@ -6,22 +6,22 @@ Shell / jobc / signals code (wait statuses injected through the cfg(cicada_verif
 through the extracted model; after every operation both print the job table, the four parked
 maps, the wait result and how many statuses were left unconsumed; the lines must be identical.
 The property's oracle (ground truth = process states updated by the consumed statuses) is
-evaluated on the IMPLEMENTATION's snapshots. Layer L0: slice::binary_search of the toolchain
-the shell is built with vs the transcribed binary_search_by on every short vector."""
+evaluated on the IMPLEMENTATION's snapshots."""
 import itertools, re
 import common as C
 
-EXTRACT = ["C06", "C06r"]
+EXTRACT = ["C06"]
 BINS = ["c06"]
 NEEDS_CICADA = False
 ALLOWED_AXIOMS = []
-PINNED = ["C06_full", "C06_refuted", "C06_refuted_unsorted", "C06_refuted_count_waited", "C06_refuted_stop_cont_parked",
-          "C06_refuted_exit_among_stopped", "C06_refuted_partial_continue", "C06_ids", "C06_binary_search", "C06_partial",
+PINNED = ["C06_full", "C06_refuted", "C06_refuted_count_waited", "C06_refuted_stop_cont_parked",
+          "C06_refuted_exit_among_stopped", "C06_refuted_partial_continue", "C06_ids", "C06_remove_pid", "C06_partial_exit_only",
+          "C06_partial_statement",
           "C06_nonvacuous"]
 TRUSTED = [
     "Coq 8.16.1 kernel (coqc; coqchk in thorough); vm_compute only in refutation witnesses / Examples",
     "hand transcription of shell.rs job methods, jobc.rs, signals.rs maps, types.rs Job/WaitStatus and of "
-    "core::slice::binary_search_by (coq/theories/Model/Jobs.v), tied by differential execution (L0, L1)",
+    "(coq/theories/Model/Jobs.v), tied by differential execution (L1)",
     "HashMap / HashSet modelled as strictly sorted association lists; the id-scan loops' upper bound 65535 and the "
     "job command text are not modelled",
     "extraction: ExtrOcamlBasic only; OCaml 4.13.1; ocaml/c06/drv.ml",
@@ -36,32 +36,6 @@ ASSUMES = [
     "and are delivered first to the next one",
     "per process the kernel reports (stop cont)* then exit|kill",
 ]
-
-def gen(ctx):
-    """Gen/JobsRepaired.v: the model with the proposed repair of finding `unsorted` (linear `position` search instead
-    of binary_search), produced from Model/Jobs.v by replacing that one definition. It is the reference for the
-    outcome `finding repaired` inside class unsorted; no theorem depends on it."""
-    import os
-    src = open(os.path.join(C.COQ, "theories/Model/Jobs.v")).read()
-    a = src.index("Fixpoint bs_loop")
-    b = src.index("Fixpoint remove_at")
-    rep = ("Fixpoint position_from (i : nat) (l : list Z) (x : Z) : nat + nat :=\n"
-           "  match l with [] => inr 0%nat | y :: r => if y =? x then inl i else position_from (S i) r x end.\n\n"
-           "Definition binary_search (l : list Z) (x : Z) : nat + nat := position_from 0%nat l x.\n\n")
-    out = "(* GENERATED by drive/c06.py gen() from Model/Jobs.v -- do not edit *)\n" + src[:a] + rep + src[b:]
-    files = {"theories/Gen/JobsRepaired.v": out,
-             "theories/Extract/C06r.v": "From Coq Require Import Extraction ExtrOcamlBasic.\nFrom Cicada Require Import Gen.JobsRepaired.\n"
-                                        "Extraction Language OCaml.\nExtraction \"c06r_model.ml\" step trace init_rst binary_search.\n"}
-    for rel, txt in files.items():
-        p = os.path.join(C.COQ, rel)
-        os.makedirs(os.path.dirname(p), exist_ok=True)
-        if not os.path.exists(p) or open(p).read() != txt:
-            open(p, "w").write(txt)
-    drv = open(os.path.join(C.VERIF, "ocaml/c06/drv.ml")).read().replace("open C06_model", "open C06r_model")
-    p = os.path.join(C.VERIF, "ocaml/c06r/drv.ml")
-    if not os.path.exists(p) or open(p).read() != drv:
-        open(p, "w").write(drv)
-
 
 SNAP = re.compile(r"jobs=\[(.*?)\] reap=\[(.*?)\] stop=\[(.*?)\] cont=\[(.*?)\] kill=\[(.*?)\] st=(-?\d+) blk=(\d) left=(\d+)$")
 
@@ -118,8 +92,6 @@ def known_classes(h):
     for o in h:
         if o[0] == "L":
             p = o[3]
-            if any(a >= b for a, b in zip(p, p[1:])):
-                cls.add("unsorted")
             if len(p) >= 2:
                 multi.update(p)
     # stop / continue of a member of a multi-process job
@@ -255,7 +227,6 @@ def oracle(h, snaps):
 
 # which known class explains which oracle failure
 EXPLAINS = {
-    "unsorted": {"zombie", "wait_late", "wait_early", "wait_status", "status_running", "status_stopped", "pstate", "lost"},
     "member_stop": {"wait_early", "wait_late", "wait_status", "status_running", "status_stopped", "pstate"},
     "stop_cont_parked": {"parked_order", "pstate", "status_running", "status_stopped"},
 }
@@ -410,33 +381,6 @@ def run(ctx, res):
     rng = ctx.rng
     thorough = ctx.thorough
     known = {k["class"]: k for k in C.known_findings("C06")}
-    # ---------------- L0: binary_search
-    vals = [1, 2, 3, 4]
-    bs_cases = []
-    for n in range(0, 5 if not thorough else 6):
-        for v in itertools.product(vals, repeat=n):
-            for x in (0, 1, 2, 3, 4, 5):
-                bs_cases.append((",".join(map(str, v)), str(x)))
-    for _ in range(3000 if not thorough else 30000):
-        n = rng.randint(5, 12)
-        v = [rng.randint(-5, 30) for _ in range(n)]
-        if rng.random() < 0.5:
-            v.sort()
-        bs_cases.append((",".join(map(str, v)), str(rng.choice(v + [rng.randint(-6, 31)]))))
-    p0 = C.write_cases("c06_bs.txt", [C.case("bs", a, b) for a, b in bs_cases])
-    m0 = C.run_model(ctx.model["C06"], p0)
-    i0 = C.run_impl(ctx.bins["c06"], p0, len(bs_cases))
-    res.count("L0_binary_search", len(bs_cases))
-    nb = 0
-    for (a, b), x, y in zip(bs_cases, m0, i0):
-        if x.startswith("Ok"):
-            res.nontrivial("bs:" + x + ":" + str(len(a)))
-        if x != y:
-            nb += 1
-            if nb <= 2:
-                res.violate(kind="correspondence", layer="L0", function="slice::binary_search", input="[%s] search %s" % (a, b),
-                            model=x, impl=y, failing_input=False,
-                            note="the toolchain's binary_search differs from the transcribed binary_search_by")
     # ---------------- L1: histories
     hs = []
     if ctx.replay:
@@ -445,7 +389,7 @@ def run(ctx, res):
         if "history" in r:
             hs.append([tuple(o) for o in r["history"]])
     corpus = [
-        # the recorded witnesses first
+        # the witness of the repaired binary_search defect (fixed: bbf8fc1) as a regression case, then the recorded witnesses
         [("L", 9, False, [9, 3]), ("W", 9, [9, 3], [("x", 9, 0), ("x", 3, 0)]), ("P", [])],
         [("L", 3, False, [3, 9]), ("W", 3, [3, 9], [("s", 3, 19), ("c", 3), ("x", 3, 0), ("x", 9, 5)]), ("P", [])],
         [("L", 5, True, [5]), ("P", [("s", 5, 19), ("c", 5)]), ("P", []), ("P", [("x", 5, 0)])],
@@ -479,36 +423,25 @@ def run(ctx, res):
     hs = [h for h, _ in uniq]
     path = C.write_cases("c06_l1.txt", [k for _, k in uniq])
     mo = C.run_model(ctx.model["C06"], path, timeout=3000)
-    mor = C.run_model(ctx.model["C06r"], path, timeout=3000)   # model with the `position` repair
     io = C.run_impl(ctx.bins["c06"], path, len(hs), timeout=3000)
     res.count("L1_histories", len(hs))
     res.extra["histories_enumerated"] = n_exh
     res.extra["histories_random"] = nrand
-    res.rule = ("L0: slice::binary_search vs the transcription on every vector of length <= %d over {1..4} (sorted or not) "
-                "and random longer ones. L1: every history of at most %d atoms (launch / status / poll) for every "
+    res.rule = ("L1: every history of at most %d atoms (launch / status / poll) for every "
                 "configuration of <= 3 jobs x <= 3 processes x fg/bg with ascending and non-ascending pid vectors (capped at %d "
                 "per configuration, depth first), plus %d random histories of up to %d or 25 statuses; per operation the job "
                 "table, the four parked maps, the wait status, blocked flag and unconsumed count are compared; non-trivial = "
                 "distinct final snapshot in which a job is present or a status is parked"
-                % (5 if thorough else 4, max_atoms, cap_per_cfg, nrand, max_events))
+                % (max_atoms, cap_per_cfg, nrand, max_events))
     ncorr = 0
     nviol = 0
     stats = {"in_known_class": 0, "known_reproduced": 0, "known_class_but_oracle_holds": 0, "oracle_ok": 0}
-    for h, a, b, ar in zip(hs, mo, io, mor):
+    for h, a, b in zip(hs, mo, io):
         msn = a.split(" | ")
         last = msn[-1]
         if "jobs=[]" not in last or "reap=[] stop=[] cont=[] kill=[]" not in last:
             res.nontrivial(last)
         cls = known_classes(h)
-        if "unsorted" in cls and a == ar:
-            # the binary search missed no pid in this history: the mechanism did not fire
-            cls = cls - {"unsorted"}
-        if "unsorted" in cls and b != a and b == ar:
-            # the binary_search finding is repaired in this tree: the reference is the repaired model and
-            # the history is judged as a member of its remaining classes only
-            stats["unsorted_repaired"] = stats.get("unsorted_repaired", 0) + 1
-            cls = cls - {"unsorted"}
-            a = ar
         snaps = [parse_snap(x) for x in b.split(" | ")] if b not in ("PANIC", "CRASH", "NOT-RUN", None) else []
         while len(snaps) < len(h):
             snaps.append(None)
@@ -536,10 +469,9 @@ def run(ctx, res):
             # the implementation satisfies the oracle on this history; it must still be the modelled behaviour
             stats["known_class_but_oracle_holds"] += 1
             if not agree:
-                ncorr += 1
-                if ncorr <= 3:
-                    res.violate(kind="correspondence", layer="L1", input=hist_txt, history=[list(o) for o in h], model=a,
-                                impl=b, failing_input=False, note="model and implementation print different snapshots")
+                # the implementation no longer shows the recorded wrong behaviour the model predicts and
+                # satisfies the property on this history: accepted ("finding repaired")
+                stats["repaired_behaviour"] = stats.get("repaired_behaviour", 0) + 1
             continue
         # the first failure must be one a recorded mechanism produces; what follows it in the same
         # history is a consequence of the same wrong state (model and implementation agree on all of it)
